@@ -122,3 +122,30 @@ Definition py_index (s : string) (i : Z) : option string :=
   match nth_error l (Z.to_nat j) with Some c => Some (sla [c]) | None => None end.
 (* a % b on ints (sign of the divisor, like Z.modulo); b = 0 raises ZeroDivisionError = None *)
 Definition py_mod (a b : Z) : option Z := if (b =? 0)%Z then None else Some (a mod b)%Z.
+
+(* ---------------------------------------------------------------------------------------------- list[str], dict[str,str] *)
+(* s.split(c) for a one-character separator: never the empty list ("".split("/") = [""]) *)
+Fixpoint la_split (c : ascii) (cur : list ascii) (s : list ascii) : list (list ascii) :=
+  match s with
+  | [] => [rev cur]
+  | x :: s' => if Ascii.eqb x c then rev cur :: la_split c [] s' else la_split c (x :: cur) s'
+  end.
+Definition py_split_char (s : string) (c : ascii) : list string := map sla (la_split c [] (la s)).
+Fixpoint py_join (sep : string) (l : list string) : string :=
+  match l with
+  | [] => ""%string
+  | x :: l' => match l' with [] => x | _ => (x ++ sep ++ py_join sep l')%string end
+  end.
+(* l[a:b] and l[i] on lists, same bound rules as for str *)
+Definition py_lslice {A} (l : list A) (lo hi : option Z) : list A :=
+  let n := List.length l in
+  let a := match lo with Some i => py_norm n i | None => 0%nat end in
+  let b := match hi with Some i => py_norm n i | None => n end in
+  firstn (b - a) (skipn a l).
+Definition py_lindex {A} (l : list A) (i : Z) : option A :=
+  let j := if (i <? 0)%Z then (i + Z.of_nat (List.length l))%Z else i in
+  if (j <? 0)%Z then None else nth_error l (Z.to_nat j).
+Definition sdict := list (string * string).
+Fixpoint py_sget (d : sdict) (k : string) : option string :=
+  match d with [] => None | (k', v) :: d' => if String.eqb k' k then Some v else py_sget d' k end.
+Definition py_sin (d : sdict) (k : string) : bool := match py_sget d k with Some _ => true | None => false end.
